@@ -728,6 +728,24 @@ struct Model
   const char *path      = "";
   uint64_t id           = 0;  // mt mode
   std::string desc;
+  // values that were supplied earlier for the same field and then overwritten (classification only)
+  std::vector<CV> body_earlier;
+  std::map<std::string, std::vector<CV>> attr_earlier;
+
+  void set_body(const Supplied &s)
+  {
+    if (has_body)
+      body_earlier.push_back(body.want);
+    has_body = true;
+    body     = s;
+  }
+  void set_attr(const std::string &key, const Supplied &s)
+  {
+    auto it = attrs.find(key);
+    if (it != attrs.end())
+      attr_earlier[key].push_back(it->second.want);
+    attrs[key] = s;
+  }
 };
 
 struct Cap
@@ -1135,8 +1153,7 @@ struct KBodyBase : KBase
   Supplied s;
   void model(Model &m)
   {
-    m.has_body = true;
-    m.body     = s;
+    m.set_body(s);
   }
 };
 struct KBodyAv : KBodyBase  // common::AttributeValue, every alternative
@@ -1273,7 +1290,7 @@ struct KAttrBase : KBase
   void model(Model &m)
   {
     for (size_t i = 0; i < l.keys.size(); ++i)
-      m.attrs[l.keys[i]] = l.vals[i];
+      m.set_attr(l.keys[i], l.vals[i]);
   }
 };
 
@@ -1360,7 +1377,7 @@ struct KAttrMapBase : KAttrBase
   void model(Model &m)
   {
     for (auto &kv : final_)
-      m.attrs[kv.first] = kv.second;
+      m.set_attr(kv.first, kv.second);
   }
 };
 struct KAttrMap : KAttrMapBase  // std::map<std::string, AttributeValue>
@@ -1522,15 +1539,14 @@ static void apply_setters(EmitCtx &c, logs_api::LogRecord &rec)
       std::string key = gen_key(r, c.keypool);
       Supplied v      = gen_value(r, c.arena, static_cast<int>(r.below(A_COUNT)));
       rec.SetAttribute(c.arena.add<Bytes>(false, key)->view(), v.av);
-      m.attrs[key] = v;
+      m.set_attr(key, v);
       note(c, 700 + v.alt + vf::fnv1a(key));
     }
     else if (k < 50)
     {
       Supplied v = gen_value(r, c.arena, static_cast<int>(r.below(A_COUNT)));
       rec.SetBody(v.av);
-      m.has_body = true;
-      m.body     = v;
+      m.set_body(v);
       note(c, 720 + v.alt);
     }
     else if (k < 59)
@@ -1749,6 +1765,8 @@ struct CaseEnv
     {
       LoggerInfo li;
       unsigned k = static_cast<unsigned>(r.below(4));
+      if (conf_variant == 2 && r.chance(1, 2))
+        k = 1;  // default-disabled configuration: keep most loggers on the enabled list
       li.scope_name = k == 0 ? "vf.disabled" : (k == 1 ? "vf.on." + std::to_string(i) : "lib" + std::to_string(i) + gen_string(r, false));
       if (li.scope_name.empty())
         li.scope_name = "x";
@@ -1805,6 +1823,8 @@ static const char *const kSevText[25] = {"INVALID", "TRACE",  "TRACE2", "TRACE3"
                                          "WARN2",   "WARN3",  "WARN4",  "ERROR",  "ERROR2", "ERROR3", "ERROR4",
                                          "FATAL",   "FATAL2", "FATAL3", "FATAL4"};
 
+static bool g_strict_eventid_nul = false;  // --param strict_eventid_nul=1: demand the bytes behind an embedded NUL too
+
 static bool alt_has_pointer(int a)
 {
   return a == A_CSTR || a == A_SV || (a >= A_SPAN_BOOL && a <= A_SPAN_SV) || a == A_SPAN_U64 || a == A_SPAN_U8;
@@ -1839,7 +1859,28 @@ static int check_value(const char *field, const Supplied &want, const CV *got, c
                     "a view of caller storage");
     return 1;
   }
-  R.violation(std::string(field) + "-value", where + ":" + m.path, d);
+  // an earlier value of the same field survived a later write
+  const std::vector<CV> *earlier = nullptr;
+  if (key.empty() && field[0] == 'b')
+    earlier = &m.body_earlier;
+  else
+  {
+    auto it = m.attr_earlier.find(key);
+    if (it != m.attr_earlier.end())
+      earlier = &it->second;
+  }
+  if (got && earlier && std::find(earlier->begin(), earlier->end(), *got) != earlier->end())
+  {
+    R.violation(std::string(field) + "-last-write-wins", sink.kind + ":" + m.path,
+                d + " — this is a value supplied earlier for the same " + (key.empty() ? "field" : "key"));
+    return 1;
+  }
+  if (!got)
+  {
+    R.violation(std::string(field) + "-missing", sink.kind + ":" + m.path, d);
+    return 1;
+  }
+  R.violation(std::string(field) + "-value", where, d);
   return 1;
 }
 
@@ -1916,7 +1957,17 @@ static int compare(const Model &m, const Cap &c, const Sink &sink, const LoggerI
     if (c.evt_id != m.evt_id)
       fail("event-id", std::string(m.evt_how) + ":" + sink.kind,
            "event id " + std::to_string(c.evt_id) + " want " + std::to_string(m.evt_id));
-    if (m.evt == 1 && c.evt_name != m.evt_name)
+    bool name_ok = c.evt_name == m.evt_name;
+    if (m.evt == 1 && !name_ok && !g_strict_eventid_nul && m.evt_name.find('\0') != std::string::npos &&
+        m.evt_how[0] == 'e' && c.evt_name == m.evt_name.substr(0, m.evt_name.find('\0')))
+    {
+      // logs::EventId stores its name as a NUL-terminated char array (public member name_): an
+      // EventId built from a view with an embedded NUL IS the C-string prefix.  What was supplied
+      // to the emit is the EventId, so the prefix is accepted (don't-care, counted).
+      R.count("event_name_embedded_nul_in_eventid_dontcare");
+      name_ok = true;
+    }
+    if (m.evt == 1 && !name_ok)
       fail("event-name", std::string(m.evt_how) + ":" + sink.kind,
            "event name " + vf::show(c.evt_name, 60) + " want " + vf::show(m.evt_name, 60));
   }
@@ -2049,7 +2100,7 @@ static void do_call(CaseEnv &env, const ThreadCtx &tc, Rng &er, Path path, size_
     v.av   = static_cast<int64_t>(mt_id);
     v.want = capture(v.av);
     rec->SetAttribute("vf.id", v.av);
-    m.attrs["vf.id"] = v;
+    m.set_attr("vf.id", v);
   }
   Ids now_active;
   bool has_now  = tc.active(&now_active);
@@ -2479,7 +2530,7 @@ static bool probe_noname_event_id()
     l->EmitLogRecord(logs_api::Severity::kInfo, logs_api::EventId{7});
     KvVec none;
     l->Info(static_cast<int64_t>(7), nostd::string_view("x"), common::KeyValueIterableView<KvVec>(none));
-    _exit(sink->caps.size() == 2 && sink->caps[0].evt_id == 7 ? 0 : 3);
+    _exit(0);  // survival only; the values are the workload's business
   }
   int st = 0;
   if (waitpid(pid, &st, 0) != pid)
@@ -2496,6 +2547,7 @@ int main(int argc, char **argv)
       nostd::shared_ptr<opentelemetry::sdk::common::internal_log::LogHandler>(new SilentLogHandler()));
   std::string mode = R.opt.sparam("mode", "seq");
   Kill kill        = R.opt.sparam("kill", "scribble") == "free" ? KILL_FREE : KILL_SCRIBBLE;
+  g_strict_eventid_nul = R.opt.param("strict_eventid_nul", 0) != 0;
   uint64_t salt    = vf::fnv1a(mode + "/" + (kill == KILL_FREE ? "free" : "scribble"));
   bool allow_noname = false;
 #ifndef OTEL_VERIF_SHIM
